@@ -59,6 +59,7 @@ STAT = {"none": [], "gridplate": ["GRID_PLATE"], "two": ["GRID_PLATE", "PLENUM"]
         "fuel": ["FUEL"]}
 NUCS = ("U235", "FE")
 QUEUE, POOL, GONE = "queue", "pool", "gone"
+ZMAX = 3 * 400.0   # cm: tallest possible assembly (3 blocks of at most 400 cm), the scale of elevation comparisons
 
 
 class Op:
@@ -316,7 +317,7 @@ class World:
             zs, stack = 0.0, []
             for b in A[ai]:
                 hb = self.block0[id(b)]["h"]
-                stack.append(AND(CLOSE(b.p.zbottom, zs, scale=zs + hb), CLOSE(b.p.ztop, zs + hb, scale=zs + hb)))
+                stack.append(AND(CLOSE(b.p.zbottom, zs, scale=ZMAX), CLOSE(b.p.ztop, zs + hb, scale=ZMAX)))
                 zs = zs + hb
             ctx.check("%s: elevations of assembly %d follow its block order without gap or overlap" % (what, ai),
                       IMPLIES(self.statAligned, AND(*stack + [True])))
